@@ -1726,6 +1726,20 @@ def check_cache_coherence(ck, cm):
     ok = bool(pn) and fa.cfg.exit not in fa.cfg.reach([fa.cfg.entry], removed=pn, edge_ok=edge_ok)
     ck.ob(R, fa.key(None, "write-through"), ok, "memoize writes through to the cache on every writable path" if ok else
           "memoize can store without updating the memory cache: a stale cached value outlives the new one", fa.where())
+    # ... and only once the store has accepted the memento: a cache that is filled first keeps claiming the call is memoized
+    # when the store's write fails (listings and other processes say it is not; the result is never written again)
+    fx = FA(ck, fa.fi, exc_mode="all")
+    px, _ps = _layer_application_nodes(ck, fx, "put", "_memory_cache", excuse)
+    sx, _ss = _layer_application_nodes(ck, fx, "put_memento", "_metadata_source", None)
+    if px and sx:
+        # ways on which the store's write has not completed normally: around it, or out of it through an exception edge
+        unfinished = fx.cfg.reach([fx.cfg.entry], edge_ok=lambda s_, d_, l_: not (s_ in sx and l_ != "exc"))
+        early = [i for i in px if i in unfinished]
+        oke = not early
+        ck.ob(R, fa.key(None, "write-through-after-store"), oke, "the cache is filled only after the store has accepted the memento" if oke else
+              "memoize can put the result into the memory cache before (or although) self._metadata_source.put_memento has not completed: when the "
+              "store's write fails the cache keeps answering that the call is memoized while the store does not have it",
+              fa.where(fx.cfg.node(early[0]).ast if early else None))
     for (c, args_, kws_) in psites:
         b_ = _bind(ast.Call(func=c.func, args=list(args_), keywords=list(kws_)), cm.insert.params)
         hv = b_.get("has_result")
